@@ -223,3 +223,23 @@ const (
 	// DefaultMsgSize EDNS0 message size.
 	DefaultMsgSize = 1232
 )
+
+// CanonicalPresentation returns the one spelling the DNS library's unpacker
+// gives a name: what a query for it carries once it has crossed the wire.
+// Presentation text that did not come from the unpacker — a URL parameter, an
+// API argument — can spell the same name in other ways (`ex\097mple` for
+// `example`, a raw octet for its `\DDD` escape, an unescaped `@`), and every
+// layer that keys, compares or suffix-matches names assumes it never sees
+// them. ok is false when the text is not a name at all.
+func CanonicalPresentation(name string) (string, bool) {
+	wire := make([]byte, 256)
+	n, err := dns.PackDomainName(dns.Fqdn(name), wire, 0, nil, false)
+	if err != nil {
+		return "", false
+	}
+	canonical, _, err := dns.UnpackDomainName(wire[:n], 0)
+	if err != nil {
+		return "", false
+	}
+	return canonical, true
+}
